@@ -21,11 +21,32 @@ func Transpile(elkRegex string, flags bitfield.BitField8) (string, diagnostic.Di
 	}
 
 	t := &transpiler{Flags: flags}
+	t.globalFlags()
 	t.transpileNode(ast)
 	if t.Errors != nil {
 		return "", t.Errors
 	}
 	return t.Buffer.String(), nil
+}
+
+// The flags that Go's regexp package implements itself (`i`, `m`, `s`, `U`)
+// are handed over as a leading flag group eg. `(?im)`.
+// `x` and `a` are handled by the transpiler.
+func (t *transpiler) globalFlags() {
+	var written bool
+	for _, fl := range flag.Flags {
+		if !t.Flags.HasFlag(fl) || !flag.IsSupportedByGo(fl) {
+			continue
+		}
+		if !written {
+			t.Buffer.WriteString(`(?`)
+			written = true
+		}
+		t.Buffer.WriteRune(flag.ToChar(fl))
+	}
+	if written {
+		t.Buffer.WriteRune(')')
+	}
 }
 
 // Transpiler mode
